@@ -26,6 +26,8 @@ CONSTANTS
   OthersCall = "never"
   KeepPagesWritable = FALSE
   TrampFlushed = TRUE
+  Regen = FALSE
+  SavedFrom = "install"
   MaxEvents = 40
   MaxInst = 2
 INVARIANT Emit
